@@ -19,7 +19,7 @@ def step (r : Ring Nat) (b : Block) : Ring Nat × List String :=
     | some h => (r, [joinSp ("h" :: h.map toString)])
     | none => (r, ["panic history"])
   | ["o"] => (r, [s!"o {r.oldestFrame}"])
-  | ["c"] => (r, [s!"c {r.recent}"])
+  | ["c"] => (r, [match r.recent with | some v => s!"c {v}" | none => "c none"])
   | ["u"] => (r, [s!"u {r.current}"])
   | _ => (r, ["bad-op"])
 
@@ -63,14 +63,15 @@ def monStep (m : Mon) (b : Block) : Mon × List String :=
     | _ => (m, fails0 ++ ["prop=C19 reason=oldest-no-output"])
   | ["c"] =>
     -- "recent" is specified when a previous frame exists and capacity ≥ 2; capacity 1: the only slot
-    let e : Option Nat :=
-      if m.size == 1 then some (m.vals.getD m.n 0)
-      else if m.n ≥ 1 then some (m.vals.getD (m.n - 1) 0) else none
-    match b.outs, e with
-    | [["c", got]], some e =>
-      if got == toString e then (m, fails0) else (m, fails0 ++ [s!"prop=C19 reason=recent expected={e} got={got}"])
-    | [["c", _]], none => (m, fails0)
-    | _, _ => (m, fails0 ++ ["prop=C19 reason=recent-no-output"])
+    -- "recent": the frame before the current one (capacity 1: the only slot); nil while nothing was completed
+    let e : String :=
+      if m.n == 0 then "none"
+      else if m.size == 1 then toString (m.vals.getD m.n 0)
+      else toString (m.vals.getD (m.n - 1) 0)
+    match b.outs with
+    | [["c", got]] =>
+      if got == e then (m, fails0) else (m, fails0 ++ [s!"prop=C19 reason=recent expected={e} got={got}"])
+    | _ => (m, fails0 ++ ["prop=C19 reason=recent-no-output"])
   | ["u"] =>
     let e := toString (m.vals.getD m.n 0)
     match b.outs with
